@@ -27,7 +27,18 @@ SYMS = {
     "initialize-as-notification": (0, 0, "initialize", {"capabilities": {}}),
     "shutdown-as-notification": (0, 1, "shutdown", None),
     "fold": (1, 2, "textDocument/foldingRange", {"textDocument": {"uri": "file:///nowhere.spl"}}),
+    # every other request kind, on the document `docnote` opens (a handler that answers from a task of its own, or later than
+    # its successors, shows up as responses out of request order)
+    "format": (1, 2, "textDocument/formatting", {"textDocument": {"uri": "file:///a.spl"}, "options": {"tabSize": 2, "insertSpaces": True}}),
+    "semtok": (1, 2, "textDocument/semanticTokens/full", {"textDocument": {"uri": "file:///a.spl"}}),
+    "complete": (1, 2, "textDocument/completion", {"textDocument": {"uri": "file:///a.spl"}, "position": {"line": 0, "character": 13}}),
+    "refs": (1, 2, "textDocument/references", {"textDocument": {"uri": "file:///a.spl"}, "position": {"line": 0, "character": 6},
+                                                "context": {"includeDeclaration": True}}),
+    "rename": (1, 2, "textDocument/rename", {"textDocument": {"uri": "file:///a.spl"}, "position": {"line": 0, "character": 6}, "newName": "m"}),
+    "sighelp": (1, 2, "textDocument/signatureHelp", {"textDocument": {"uri": "file:///a.spl"}, "position": {"line": 0, "character": 13}}),
+    "goto": (1, 2, "textDocument/definition", {"textDocument": {"uri": "file:///a.spl"}, "position": {"line": 0, "character": 6}}),
 }
+REQUEST_KINDS = ["supported", "fold", "format", "semtok", "complete", "refs", "rename", "sighelp", "goto", "unknownreq"]
 BASE = ["initialize", "initialized", "supported", "unknownreq", "docnote", "unknownnote", "shutdown", "exit"]
 CODES = {-32002: 1, -32600: 2, -32601: 3}
 
@@ -166,6 +177,13 @@ def gen(ctx):
     for _ in range(600 if ctx.thorough() else 150):
         sess = [ctx.rng.choice(allsyms if ctx.rng.random() < 0.5 else BASE) for _ in range(ctx.rng.randint(5, 12))]
         cases.append(("random", sess, b"".join(frames(sess)), command(sess)))
+    # pipelined sessions on an open document that mix all request kinds: responses must come back in request order
+    for _ in range(300 if ctx.thorough() else 60):
+        body = [ctx.rng.choice(REQUEST_KINDS) for _ in range(ctx.rng.randint(3, 10))]
+        if "format" not in body:
+            body.insert(ctx.rng.randrange(len(body)), "format")
+        sess = ["initialize", "initialized", "docnote"] + body + (["shutdown", "exit"] if ctx.rng.random() < 0.7 else [])
+        cases.append(("request-kinds", sess, b"".join(frames(sess)), command(sess)))
     # every byte prefix of some sessions, followed by end-of-input
     for _ in range(20 if ctx.thorough() else 6):
         body = [ctx.rng.choice(BASE) for _ in range(ctx.rng.randint(2, 5))]
